@@ -117,6 +117,29 @@ type Sim struct {
 	panics      []string
 	simElapsed  time.Duration
 	mapRot      bool
+	abandoned   string
+}
+
+// Abandon ends the run without a failure (e.g. an oracle that belongs to another
+// property fired, so that the rest of the run would be meaningless).
+func (s *Sim) Abandon(reason string) {
+	s.mu.Lock()
+	if s.abandoned == "" {
+		s.abandoned = reason
+	}
+	s.mu.Unlock()
+}
+
+// Abandoned reports whether Abandon was called.
+func (s *Sim) Abandoned() bool {
+	s.mu.Lock()
+	defer s.mu.Unlock()
+	return s.abandoned != ""
+}
+
+// Over reports whether the run is finished for the workload: failed, abandoned or terminating.
+func (s *Sim) Over() bool {
+	return s.Failed() != nil || s.Abandoned() || s.terminating.Load()
 }
 
 var active atomic.Pointer[Sim]
@@ -580,6 +603,7 @@ type Result struct {
 	Streams  map[string][]uint64
 	Stalled  bool
 	Panics   []string
+	Abandoned string
 }
 
 // DefaultConfig returns the usual limits.
@@ -598,7 +622,6 @@ func Run(t *testing.T, tape *Tape, cfg Config, main func(s *Sim)) (res *Result) 
 	s := &Sim{Tape: tape, cfg: cfg, Stats: map[string]int64{}}
 	s.sched = tape.Stream("sched")
 	s.App = tape.Stream("app")
-	s.kick = make(chan struct{}, 1)
 	s.mapRot = cfg.MapRotate
 	if !active.CompareAndSwap(nil, s) {
 		panic("simrt: a simulation is already active")
@@ -615,6 +638,7 @@ func Run(t *testing.T, tape *Tape, cfg Config, main func(s *Sim)) (res *Result) 
 			}
 		}()
 		synctest.Test(t, func(t *testing.T) {
+			s.kick = make(chan struct{}, 1) // made inside the bubble: blocking on it must be durable
 			s.start = time.Now()
 			s.schedGid = gid()
 			s.choosePolicy()
@@ -631,7 +655,7 @@ func Run(t *testing.T, tape *Tape, cfg Config, main func(s *Sim)) (res *Result) 
 	active.CompareAndSwap(s, nil)
 	return &Result{Failure: s.fail, Steps: s.Steps, Switches: s.Switches, Advances: s.Advances,
 		SimTime: s.simElapsed, Tasks: len(s.tasks), Policy: s.PolicyName(), Digest: s.digest,
-		Stats: s.Stats, Trace: s.trace, Streams: tape.Recorded(), Stalled: s.Stalled, Panics: s.panics}
+		Stats: s.Stats, Trace: s.trace, Streams: tape.Recorded(), Stalled: s.Stalled, Panics: s.panics, Abandoned: s.abandoned}
 }
 
 func stack() string {
@@ -693,7 +717,7 @@ func (s *Sim) allDone() bool {
 func (s *Sim) loop() {
 	for {
 		synctest.Wait()
-		if s.Failed() != nil || s.mainDone.Load() {
+		if s.Failed() != nil || s.mainDone.Load() || s.Abandoned() {
 			return
 		}
 		if s.stepHook != nil {
